@@ -11,13 +11,25 @@
   * `gained_equals_dispensed` — with the model's `add_energy` (BEV and ICE) the vehicle books
     exactly `amount` as gained, i.e. what the station books as dispensed;
   * `pickup_credits_fare` (= `C03.pickup_exact`) — a pickup credits `request.value` once.
-  Over whole histories the sums (Σ gained = Σ dispensed per energy type, Σ payments = Σ station
-  receipts, balance = fares − payments) are enforced on implementation traces by the Lean step
-  monitor `viol05Step` after every phase; the history-level sum theorem is not yet proved
-  (partial, see DESIGN.md 3/C05).
+  Over whole histories (state + event log, every history of the complete step cycle from a state
+  with an empty log; `Proofs.Books` - one walk through every function of the control model):
+  * `run_vehicle` — each vehicle's balance equals its initial balance plus the fares of its pickup
+    events minus its charging payments, and its energy gained equals the initial value plus the
+    energies of its charge events;
+  * `run_station` — each station's balance equals its initial balance plus the payments of the
+    charge events there, and its energy dispensed the initial value plus their energies;
+  * `fleet_totals` — summed over any set of vehicles and any set of stations that cover the log,
+    energy gained = energy dispensed and payments made = payments received (every charge event
+    counts once on either side);
+  * `charge_transfers` says the payment of each event is amount × tariff of that plug at that time.
+  Per energy type: a charge event books under the plug's energy type (`charge_transfers`); the
+  run-level sums above are over both types together (the per-type split needs that a plug type's
+  energy type never changes, which `Frame.stn` provides but is not composed here).
+  The implementation's traces are checked by the Lean step monitor `viol05Step` after every phase.
 -/
 import Proofs.C04
 import Properties.C03
+import Proofs.Books
 
 namespace Hive
 namespace C05
@@ -86,6 +98,45 @@ theorem pickup_credits_fare (env : Env) {w w1 : World} {v : VehicleId} {rid : Re
       w1.sim.vehicle? v = some { veh with balance := veh.balance + req.value } := by
   obtain ⟨veh, req, h1, h2, _, h4, _⟩ := C03.pickup_exact env h
   exact ⟨veh, req, h1, h2, h4⟩
+
+/-! ### over whole runs -/
+
+section Run
+variable {env : Env} (hg : Books.GainEnv env) {w0 w : World} (h : WReachable env w0 w) (h0 : w0.log = [])
+include hg h h0
+
+/-- **each vehicle's balance = fares − charging payments; energy gained = Σ charge events** -/
+theorem run_vehicle {v : VehicleId} {veh0 veh : Vehicle} (hv0 : w0.sim.vehicle? v = some veh0)
+    (hv : w.sim.vehicle? v = some veh) :
+    veh.balance = veh0.balance + Books.fares w.log v - Books.paid w.log v ∧
+    veh.en.gained = veh0.en.gained + Books.charged w.log v :=
+  (Books.run_vehicle hg h h0 hv0 hv).2
+
+/-- **each station's balance = payments received; energy dispensed = Σ charge events there** -/
+theorem run_station {i : StationId} {st0 st : Station} (hs0 : w0.sim.station? i = some st0)
+    (hs : w.sim.station? i = some st) :
+    st.balance = st0.balance + Books.received w.log i ∧
+    st.dispE + st.dispG = st0.dispE + st0.dispG + Books.dispensed w.log i :=
+  Books.run_station hg h h0 hs0 hs
+
+end Run
+
+/-- **summed over the fleet**: energy gained by the vehicles = energy dispensed by the stations,
+    payments made = payments received -/
+theorem fleet_totals (log : List Event) (vids sids : List Nat) (hv : vids.Nodup) (hs : sids.Nodup)
+    (hcov : ∀ e ∈ log, match e with | .charge v s _ _ _ => v ∈ vids ∧ s ∈ sids | _ => True) :
+    (vids.map (Books.charged log)).sum = (sids.map (Books.dispensed log)).sum ∧
+    (vids.map (Books.paid log)).sum = (sids.map (Books.received log)).sum := by
+  obtain ⟨a, b, c, d⟩ := Books.fleet_totals log vids sids hv hs hcov
+  exact ⟨a.trans b.symm, c.trans d.symm⟩
+
+/-- the driver's environment meets the hypothesis on the physics -/
+theorem concrete_gain (o : Oracle) (mechs : List Mech) : Books.GainEnv (o.env mechs) := Books.concrete_gainEnv o mechs
+
+/-- not vacuous: two vehicles at one station -/
+example : (([1, 2] : List Nat).map (Books.charged [.charge 1 0 0 3 6, .move 2 5 1, .charge 2 0 0 4 8])).sum
+    = (([0] : List Nat).map (Books.dispensed [.charge 1 0 0 3 6, .move 2 5 1, .charge 2 0 0 4 8])).sum := by
+  decide +kernel
 
 end C05
 end Hive
